@@ -403,11 +403,11 @@ static void check_transition(Sink& k, const Snap& pre, const Walk& w, const Even
 }
 
 struct Slot { int pos, ev, prestate, cls, muted; };    // progress of a worker, in shared memory
-// A transition class (parser state, event, pending cluster empty?) whose execution has
+// A transition class (parser state, event, pending cluster empty?, muted region?) whose execution has
 // produced a sanitizer report twice is not executed again (every execution costs a
 // worker process); the skipped executions are counted.
-static const int CRASH_TAB = 64 * 512 * 2;
-static int crash_class(int prestate, int ev, bool empty) { return ((prestate & 63) * 512 + (ev & 511)) * 2 + (empty ? 1 : 0); }
+static const int CRASH_TAB = 64 * 512 * 4;
+static int crash_class(int prestate, int ev, bool empty, bool muted) { return ((prestate & 63) * 512 + (ev & 511)) * 4 + (empty ? 1 : 0) + (muted ? 2 : 0); }
 
 static int run_automaton() {
   Ctx& c = ctx();
@@ -425,7 +425,11 @@ static int run_automaton() {
   std::unordered_map<std::string, int> index;
   { Walk w; std::string k = canon(w); index[k] = 0; states.push_back(Hist()); keys.push_back(k); }
   std::vector<int> frontier{0};
-  unsigned char* crashtab = (unsigned char*)mmap(nullptr, CRASH_TAB, PROT_READ | PROT_WRITE, MAP_SHARED | MAP_ANONYMOUS, -1, 0);
+  // classes known at the start of a level (master memory, inherited by fork) + the classes
+  // this worker has hit itself in this level: what is executed does not depend on timing
+  std::vector<unsigned char> crashtab(CRASH_TAB, 0);
+  std::vector<std::set<int>> mycrash(J);
+  int* hangcls = (int*)mmap(nullptr, sizeof(int) * J * 64, PROT_READ | PROT_WRITE, MAP_SHARED | MAP_ANONYMOUS, -1, 0);   // hang classes found by worker j in this level
   Slot* slots = (Slot*)mmap(nullptr, sizeof(Slot) * J, PROT_READ | PROT_WRITE, MAP_SHARED | MAP_ANONYMOUS, -1, 0);
   long long transitions = 0; int level = 0; int accepts = 0;
   std::map<std::string, int> mastersig;
@@ -455,15 +459,15 @@ static int run_automaton() {
         }
         for (int e = (pos == start_pos[j] ? start_ev[j] : 0); e < (int)EV.size(); e++) {
           if (!en[e]) continue;
-          int cc = crash_class(pre.state, e, empty_pending);
-          if (crashtab[cc] >= 1) { k.cnt["transitions_skipped_known_sanitizer_class"]++; continue; }
+          int cc = crash_class(pre.state, e, empty_pending, pre.errCode != 0 && pre.state != 0);
+          if (crashtab[cc] >= 1 || mycrash[j].count(cc)) { k.cnt["transitions_skipped_known_sanitizer_class"]++; continue; }
           slots[j].pos = pos; slots[j].ev = e; slots[j].prestate = pre.state; slots[j].cls = cc; slots[j].muted = (pre.errCode != 0 && pre.state != 0);
           Hist h2 = h; h2.push_back((uint16_t)e);
           Walk w; replay(w, h2);
           k.cnt["transitions"]++;
           check_transition(k, pre, w, EV[e], h2);
           if (w.threw && (w.last.cls == 4 || w.last.cls == 3)) {     // the session is unusable: no successor state
-            if (w.last.cls == 4 && crashtab[cc] < 255) crashtab[cc]++;
+            if (w.last.cls == 4) { mycrash[j].insert(cc); int& n = hangcls[j * 64]; if (n < 63) hangcls[j * 64 + 1 + n++] = cc; }
             k.outc[sname(pre.state) + " --open--> " + (w.last.cls == 4 ? "HANG" : "FOREIGN-EXCEPTION")]++;
             continue;
           }
@@ -486,6 +490,7 @@ static int run_automaton() {
       fclose(k.f);
       _exit(0);
     };
+    for (int j = 0; j < Jmax; j++) { mycrash[j].clear(); hangcls[j * 64] = 0; }
     for (int j = 0; j < J; j++) { unlink((tmp + "/out-" + std::to_string(j)).c_str()); start_pos[j] = 0; start_ev[j] = 0; spawn(j); }
     int alive = J;
     while (alive > 0) {
@@ -496,7 +501,7 @@ static int run_automaton() {
       if (WIFEXITED(st) && WEXITSTATUS(st) == 0) { alive--; continue; }
       // a worker died inside a transition: sanitizer report or crash.  Record, resume behind it.
       Slot s = slots[j];
-      if (crashtab[s.cls] < 255) crashtab[s.cls]++;
+      mycrash[j].insert(s.cls);
       std::string what = WIFSIGNALED(st) ? "signal " + std::to_string(WTERMSIG(st)) : "exit " + std::to_string(WEXITSTATUS(st));
       std::string rep, kind = "crash";
       { std::ifstream in(tmp + "/err-" + std::to_string(j)); std::string l;
@@ -519,6 +524,10 @@ static int run_automaton() {
       spawn(j);
     }
     // ---- merge
+    for (int j = 0; j < J; j++) {
+      for (int cc : mycrash[j]) crashtab[cc] = 1;
+      for (int n = 0; n < hangcls[j * 64]; n++) crashtab[hangcls[j * 64 + 1 + n]] = 1;
+    }
     std::vector<int> next;
     for (int j = 0; j < J; j++) {
       std::ifstream in(tmp + "/out-" + std::to_string(j)); std::string l; bool fin = false;
